@@ -12,10 +12,12 @@ import (
 	"path"
 	"path/filepath"
 	"regexp"
+	"runtime"
 	"strings"
 	"sync"
 	"syscall"
 	"testing"
+	"time"
 	"unicode/utf8"
 
 	"github.com/google/martian/v3/body"
@@ -127,12 +129,24 @@ func newRequest(target, rangeHeader string) *http.Request {
 
 func readLimit(content int, h string) int64 {
 	k := int64(strings.Count(h, ",") + 2)
-	return k*(int64(content)+600) + 256<<10
+	return k*(int64(content)+600+192<<10) + 256<<10
 }
 
 // runBodyModifier answers a request with body.Modifier the way the proxy
 // does: the upstream response is handed to ModifyResponse.
-func runBodyModifier(content []byte, h string) obs {
+func runBodyModifier(content []byte, h string, slack int) obs {
+	if slack > 0 {
+		// the same content in a slice with spare capacity behind it (as a decoder
+		// or an append would leave it); the spare bytes are not content
+		buf := make([]byte, len(content)+slack)
+		copy(buf, content)
+		for i := len(content); i < len(buf); i++ {
+			buf[i] = 0xA5
+		}
+		content = buf[:len(content)]
+	} else {
+		content = content[:len(content):len(content)]
+	}
 	req := newRequest("http://example.com/resource", h)
 	res := &http.Response{
 		Status: "200 OK", StatusCode: 200, Proto: "HTTP/1.1", ProtoMajor: 1, ProtoMinor: 1,
@@ -145,16 +159,50 @@ func runBodyModifier(content []byte, h string) obs {
 	return observe(res, mod.ModifyResponse, readLimit(len(content), h))
 }
 
+// static.Modifier never closes the file it opens when it answers a Range
+// request (206, 416 and error paths alike): the descriptor lives until the
+// garbage collector finalises the os.File. A tight loop of range cases would
+// run the process out of descriptors before the collector wakes up, so the
+// harness collects every 256 static runs, and once more if the limit is hit.
+var staticRuns int
+
+func drainLeakedFiles() {
+	for i := 0; i < 2; i++ {
+		runtime.GC()
+		time.Sleep(5 * time.Millisecond)
+	}
+}
+
+func outOfDescriptors(err error) bool {
+	return errors.Is(err, syscall.EMFILE) || errors.Is(err, syscall.ENFILE)
+}
+
 // runStaticModifier answers a request for /case.bin (holding content) with
 // static.Modifier the way the proxy does when the round trip is skipped.
 func runStaticModifier(ft *fileTree, content []byte, h string) (obs, error) {
-	if err := os.WriteFile(filepath.Join(ft.root, "case.bin"), content, 0o644); err != nil {
-		return obs{}, err
+	if staticRuns++; staticRuns%256 == 0 {
+		runtime.GC()
 	}
-	req := newRequest("http://example.com/case.bin", h)
-	res := proxyutil.NewResponse(200, nil, req)
-	mod := static.NewModifier(ft.root)
-	return observe(res, mod.ModifyResponse, readLimit(len(content), h)), nil
+	var o obs
+	for attempt := 0; ; attempt++ {
+		err := os.WriteFile(filepath.Join(ft.root, "case.bin"), content, 0o644)
+		if err == nil {
+			req := newRequest("http://example.com/case.bin", h)
+			res := proxyutil.NewResponse(200, nil, req)
+			mod := static.NewModifier(ft.root)
+			o = observe(res, mod.ModifyResponse, readLimit(len(content), h))
+			err = o.Err
+		}
+		if outOfDescriptors(err) && attempt < 3 {
+			kit.Note("range", "the process ran out of file descriptors (static.Modifier leaks one per Range request until the collector runs); collected and retried")
+			drainLeakedFiles()
+			continue
+		}
+		if o.Status == 0 && o.Panic == "" && err != nil {
+			return obs{}, err
+		}
+		return o, nil
+	}
 }
 
 // ---------------------------------------------------------------- allocation guard
@@ -213,21 +261,24 @@ func staticAllocatesFromHeader(ft *fileTree) bool {
 // ---------------------------------------------------------------- range cases
 
 // RangeCase: the content is kit.Bytes(Seed, Len); Who is "body" or "static".
+// Slack (body only) is the spare capacity of the slice handed to
+// body.NewModifier, filled with bytes that are not content.
 type RangeCase struct {
 	Who   string `json:"who"`
 	Len   int    `json:"len"`
 	Seed  uint64 `json:"seed"`
 	Range string `json:"range"`
+	Slack int    `json:"slack,omitempty"`
 }
 
 func runRange(c RangeCase) kit.Verdict {
-	if c.Len < 0 || c.Len > maxContent || !validHeaderValue(c.Range) {
+	if c.Len < 0 || c.Len > maxContent || c.Slack < 0 || c.Slack > 4096 || !validHeaderValue(c.Range) {
 		return nil
 	}
 	content := kit.Bytes(c.Seed, c.Len)
 	switch c.Who {
 	case "body":
-		return judge("body", content, c.Range, runBodyModifier(content, c.Range))
+		return judge("body", content, c.Range, runBodyModifier(content, c.Range, c.Slack))
 	case "static":
 		treeMu.Lock()
 		ft := tree
@@ -236,7 +287,7 @@ func runRange(c RangeCase) kit.Verdict {
 			return kit.Failf("C20/harness/no-tree", "static case without a file tree")
 		}
 		if staticAllocatesFromHeader(ft) && allocBand(c.Range, c.Len) {
-			return judge("body", content, c.Range, runBodyModifier(content, c.Range))
+			return judge("body", content, c.Range, runBodyModifier(content, c.Range, 0))
 		}
 		o, err := runStaticModifier(ft, content, c.Range)
 		if err != nil {
@@ -251,6 +302,9 @@ func classesRange(c RangeCase) []string {
 	n := int64(c.Len)
 	p := parseRange(c.Range)
 	cl := []string{"who-" + c.Who}
+	if c.Who == "body" && c.Slack > 0 {
+		cl = append(cl, "body-slice-with-spare-capacity")
+	}
 	if c.Range == "" {
 		return append(cl, "shape-no-range")
 	}
@@ -286,7 +340,7 @@ func classesRange(c RangeCase) []string {
 	return cl
 }
 
-var rangeRule = "content of 0..64 KiB x Range header drawn from the RFC 7233 grammar (1..4 specs a-b / a- / -n, positions from {0,1,len-2,len-1,len,len+1,2^31,2^50,2^63-1,2^63,2^64,10^30} and uniform, reversed pairs, blanks, other letter case, other units, empty and garbage elements, stray commas, character-level mutations), answered by body.Modifier or static.Modifier and judged against an independent range resolver; non-trivial = an end >= len, a suffix or open-ended spec, >= 2 specs, or a malformed spec"
+var rangeRule = "content of 0..64 KiB x Range header drawn from the RFC 7233 grammar (1..4 specs a-b / a- / -n, positions from {0,1,len-2,len-1,len,len+1,2^31,2^50,2^63-1,2^63,2^64,10^30} and uniform, reversed pairs, blanks, other letter case, other units, empty and garbage elements, stray commas, character-level mutations), answered by body.Modifier (content slice with or without spare capacity) or static.Modifier and judged against an independent range resolver; non-trivial = an end >= len, a suffix or open-ended spec, >= 2 specs, or a malformed spec"
 
 // ---- generator
 
@@ -316,10 +370,11 @@ func genPos(t *rapid.T, n int, label string) string {
 	default:
 		s = fmt.Sprint(rapid.IntRange(0, 9).Draw(t, label+"_digit"))
 	}
+	// (rapid favours the ends of an integer range: rare choices sit in the middle)
 	switch rapid.IntRange(0, 39).Draw(t, label+"_deco") {
-	case 0:
+	case 20:
 		s = "00" + s
-	case 1:
+	case 21:
 		s = "+" + s
 	}
 	return s
@@ -329,7 +384,7 @@ var garbageSpecs = []string{"", "-", "abc", "1-2-3", "7", "0x10-0x20", "1.5-2", 
 
 func genSpec(t *rapid.T, n int) string {
 	ows := func(label string) string {
-		if rapid.IntRange(0, 19).Draw(t, label) == 0 {
+		if rapid.IntRange(0, 29).Draw(t, label) == 13 {
 			return rapid.SampledFrom([]string{" ", "\t", "  "}).Draw(t, label+"_ws")
 		}
 		return ""
@@ -361,16 +416,16 @@ func genSpec(t *rapid.T, n int) string {
 const mutAlphabet = "0123456789-,= \tbytesBYTES+x"
 
 func genRangeHeader(t *rapid.T, n int) string {
-	mode := rapid.IntRange(0, 19).Draw(t, "mode")
-	if mode == 0 {
+	mode := rapid.IntRange(0, 19).Draw(t, "mode") // 0..14 grammar, 15..18 grammar + mutations, 19 free-form
+	if mode == 19 {
 		// free-form garbage
 		return sanitizeHeader(rapid.StringOfN(rapid.RuneFrom([]rune(mutAlphabet+"é ")), 0, 24, -1).Draw(t, "free"))
 	}
 	unit := "bytes"
 	switch u := rapid.IntRange(0, 19).Draw(t, "unit"); {
-	case u == 0:
+	case u == 11:
 		unit = rapid.SampledFrom([]string{"Bytes", "BYTES", "bYtEs"}).Draw(t, "unit_case")
-	case u <= 2:
+	case u == 12 || u == 13:
 		unit = rapid.SampledFrom([]string{"items", "seconds", "tes", "b", "", "bytes ", "byte", "bytess", "none", "yes", "bits", "bytes=bytes", "bytes="}).Draw(t, "unit_other")
 	}
 	k := 1
@@ -387,7 +442,7 @@ func genRangeHeader(t *rapid.T, n int) string {
 		sb.WriteString(genSpec(t, n))
 	}
 	h := sb.String()
-	if mode <= 3 {
+	if mode >= 15 {
 		// character-level mutations
 		b := []byte(h)
 		for m := rapid.IntRange(1, 3).Draw(t, "mutations"); m > 0; m-- {
@@ -438,17 +493,20 @@ var propRange = &kit.Prop[RangeCase]{
 	Run: runRange, Classes: classesRange,
 	NonTrivial: func(c RangeCase) bool { return c.Range != "" && nonTrivialRange(c.Range, int64(c.Len)) },
 	Gates: map[string]float64{
-		"nontrivial": 0.5, "who-body": 0.3, "who-static": 0.25, "expect-multipart": 0.1, "expect-single-range": 0.15,
+		"nontrivial": 0.5, "who-body": 0.3, "body-slice-with-spare-capacity": 0.08, "who-static": 0.25, "expect-multipart": 0.1, "expect-single-range": 0.15,
 		"clamped": 0.08, "shape-suffix": 0.05, "expect-invalid": 0.08, "shape-inside": 0.05, "expect-unsatisfiable": 0.03,
 	},
 	Gen: func(t *rapid.T) RangeCase {
 		c := RangeCase{Len: genLen(t), Seed: uint64(rapid.IntRange(0, 1<<20).Draw(t, "seed"))}
-		if rapid.IntRange(0, 49).Draw(t, "with_range") != 0 {
+		if w := rapid.IntRange(0, 49).Draw(t, "with_range"); w < 30 || w > 32 {
 			c.Range = genRangeHeader(t, c.Len)
 		}
 		c.Who = rapid.SampledFrom([]string{"body", "static"}).Draw(t, "who")
 		if c.Who == "static" && staticSizes && allocBand(c.Range, c.Len) {
 			c.Who = "body"
+		}
+		if c.Who == "body" && rapid.IntRange(0, 2).Draw(t, "with_slack") == 0 {
+			c.Slack = rapid.SampledFrom([]int{1, 2, 7, 64, 1000}).Draw(t, "slack")
 		}
 		return c
 	},
@@ -519,8 +577,9 @@ func TestRangeMatrix(t *testing.T) {
 				}
 			}
 			for _, h := range headers {
-				for _, who := range []string{"body", "static"} {
-					if !yield(RangeCase{Who: who, Len: n, Seed: uint64(n), Range: h}) {
+				for _, c := range []RangeCase{{Who: "body"}, {Who: "static"}, {Who: "body", Slack: 2}} {
+					c.Len, c.Seed, c.Range = n, uint64(n), h
+					if !yield(c) {
 						return
 					}
 				}
@@ -562,7 +621,7 @@ func designated(ft *fileTree, urlPath, rawTarget string, explicit bool) (content
 	fi, err := os.Stat(full)
 	lower := strings.ToLower(rawTarget)
 	switch {
-	case strings.ContainsRune(urlPath, 0):
+	case strings.ContainsRune(rel, 0):
 		shape = "nul-byte"
 	case errors.Is(err, syscall.ENAMETOOLONG):
 		shape = "name-too-long"
@@ -844,7 +903,7 @@ func TestStaticPathMatrix(t *testing.T) {
 
 // ---------------------------------------------------------------- native fuzzing
 
-const fuzzRule = "native fuzzing over (content length mod 65537, Range header bytes as an HTTP parser would deliver them, <= 512 bytes); each input is answered by body.Modifier and static.Modifier and judged like 'range'; non-trivial as in 'range'"
+const fuzzRule = "native fuzzing over (content length mod 65537 with the quotient choosing the spare capacity of the body slice, Range header bytes as an HTTP parser would deliver them, <= 512 bytes); each input is answered by body.Modifier and static.Modifier and judged like 'range'; non-trivial as in 'range'"
 
 func FuzzRange(f *testing.F) {
 	ft := getTree(f)
@@ -861,14 +920,18 @@ func FuzzRange(f *testing.F) {
 	}
 	f.Fuzz(func(t *testing.T, n32 uint32, h string) {
 		n := int(n32 % (maxContent + 1))
+		slack := int(n32/(maxContent+1)) % 4 * 5
 		h = strings.Trim(h, " \t")
 		if len(h) > 512 || !validHeaderValue(h) {
 			return
 		}
-		content := blob[:n]
+		content := blob[:n:n]
 		var v kit.Verdict
-		v = append(v, judge("body", content, h, runBodyModifier(content, h))...)
+		v = append(v, judge("body", content, h, runBodyModifier(content, h, slack))...)
 		classes := []string{}
+		if slack > 0 {
+			classes = append(classes, "body-slice-with-spare-capacity")
+		}
 		if staticSizes && allocBand(h, n) {
 			classes = append(classes, "static-skipped-allocation-band")
 		} else {
@@ -881,7 +944,7 @@ func FuzzRange(f *testing.F) {
 		if h != "" {
 			classes = append(classes, "shape-"+parseRange(h).shape(int64(n)))
 		}
-		input := append([]byte(fmt.Sprintf("%d|", n)), h...)
+		input := append([]byte(fmt.Sprintf("%d+%d|", n, slack)), h...)
 		kit.FuzzAccount("fuzz-range", fuzzRule, input, h != "" && nonTrivialRange(h, int64(n)), classes...)
 		if len(v) > 0 {
 			kit.FuzzFail(t, "C20", "fuzz-range", "FuzzRange", v, n32, h)
